@@ -1566,6 +1566,7 @@ func (c *connection) handleRecvQueue(q lib.QueueMPSC) {
 	for {
 		v, ok := q.Pop()
 		if ok == false {
+			lib.VerifPoint("proto.recv.idle", q)
 			// no more items in the queue, unlock it
 			q.Unlock()
 
@@ -1584,6 +1585,7 @@ func (c *connection) handleRecvQueue(q lib.QueueMPSC) {
 		}
 
 		buf := v.(*lib.Buffer)
+		lib.VerifPoint("proto.recv.frame", q)
 
 		// to avoid getting the buffer pool too big, we check the total volume (capacity)
 		// we took from there and don't put it back if the limit has been reached.
